@@ -475,7 +475,10 @@ func (w *xw) unknownElem() {
 			`<NOTE lat="1" lon="1"></NOTE>`,
 			`<User id="990005" display_name="x"/>`,
 			`<Bounds minlat="0" minlon="0" maxlat="1" maxlon="1"/>`,
-		}[w.r.Intn(12)])
+			// what is inside an unknown element is not part of the document either
+			`<x-ext><node id="990011" lat="1" lon="1" version="1"/><way id="990012"/></x-ext>`,
+			`<reject reason="x"><relation id="990013"></relation><x-inner><changeset id="990014"/></x-inner></reject>`,
+		}[w.r.Intn(14)])
 	}
 }
 
